@@ -102,7 +102,7 @@ def sdmx_effective(s):
 def build_fl(f):
     if not f["present"]:
         return None
-    return S.FracLaplSettings([0.5 * x for x in f["s2"]], f["nk0"], f["nk1"], [tuple(d) for d in f["dots"]], nd1=f["nd1"], ndd=f["ndd"])
+    return S.FracLaplSettings([0.5 * x for x in f["s2"]], f["nk0"], f["nk1"], [tuple(d) for d in f["dots"]], nd1=f["nd1"], ld_dots=[tuple(d) for d in f.get("lddots", [])], ndd=f["ndd"])
 
 
 def norm_kind(n):
